@@ -791,6 +791,27 @@ func (in *Interp) visitInstr(fr *frame, instr ssa.Instruction) continuation {
 
 	case *ssa.Call:
 		fn, args := in.prepareCall(fr, &instr.Call)
+		if len(in.cfg.stubDyn) > 0 && instr.Call.StaticCallee() == nil && !instr.Call.IsInvoke() {
+			if ds := in.cfg.stubDyn[fr.fn.String()]; ds != nil {
+				name := ""
+				switch f := fn.(type) {
+				case *ssa.Function:
+					name = f.String()
+				case *Closure:
+					name = f.fn.String()
+				}
+				redirect := true
+				for _, ex := range ds.except {
+					if strings.HasPrefix(name, ex) {
+						redirect = false
+					}
+				}
+				if redirect {
+					in.stubHits["dyn:"+fr.fn.String()]++
+					fn = ds.target
+				}
+			}
+		}
 		if in.inInit > 0 && fr.fn.Name() == "init" && fr.fn.Synthetic != "" {
 			fr.env[instr] = in.initCall(fr, instr, fn, args)
 		} else {
